@@ -29,7 +29,7 @@ def close(a, b, via):
     if via == 'id':
         return GG.bits(a) == GG.bits(b) or (a == b and a != 0)
     if via == 'wrap':
-        return abs(a - b) <= 4 * ULP_PI * math.pi or abs(abs(a - b) - 2 * math.pi) <= 4 * ULP_PI * math.pi
+        return -math.pi <= a <= math.pi and (abs(a - b) <= 4 * ULP_PI * math.pi or abs(abs(a - b) - 2 * math.pi) <= 4 * ULP_PI * math.pi)
     return True     # 'norm' is compared per quaternion below
 
 
@@ -82,7 +82,7 @@ def check(run):
     thorough = run.tier == 'thorough'
     graphs, cases, tabs, kinds = [], [], [], []
     for n in range(3000 if thorough else 120):
-        inex = [None, None, None, None, 'rn_odometry', 'rn_landmark', 'se2_offset'][n % 7]
+        inex = [None, None, None, None, 'rn_odometry', 'rn_landmark', 'se2_offset', None, 'no_registry'][n % 9]
         g = GG.gen_real_graph(rnd, extreme=(n % 3 != 0), inexpressible=inex)
         tab = GG.SymTab()
         cases.append({'mode': 'roundtrip', 'g': GG.abstract(g, tab)})
@@ -108,6 +108,22 @@ def check(run):
             except Exception as ex:  # noqa
                 raised = ex
             run.count(key=n, nontrivial=True)
+            if inex == 'no_registry':
+                # The offsets of the SE(3) landmark edges cannot reach the file (no parameter lines): the round trip must either fail loudly
+                # (export or import raises) or be lossless - never succeed with other offsets.
+                stats['no_registry'] = stats.get('no_registry', 0) + 1
+                if raised is None:
+                    try:
+                        g2 = Graph.from_g2o(path)
+                    except Exception:  # noqa
+                        g2 = None
+                    if g2 is not None:
+                        offs1 = [np.array(e.offset) for e in g._edges if hasattr(e, 'offset')]
+                        offs2 = [np.array(e.offset) for e in g2._edges if hasattr(e, 'offset')]
+                        if len(offs1) != len(offs2) or any(not np.array_equal(a, b) for a, b in zip(offs1, offs2)):
+                            run.violation(dict(key, outcome='silent-offset-loss'), 'graph without offset-parameter registry: export and import both succeeded but the landmark offsets changed (%r -> %r)' % (
+                                offs1[0].tolist() if offs1 else None, offs2[0].tolist() if offs2 else None), dict(abstract=c['g']))
+                continue
             if obs['refused']:
                 stats['refused'] += 1
                 if raised is None:
